@@ -124,8 +124,10 @@ def gen_annotations(rng, p=0.15):
         if rng.random() < 0.5:
             out.append(Tok("("))
             n = rng.randint(0, 3)
+            # sometimes parameter names that differ only by case (distinct keys all the same)
+            keys = rng.sample(["name", "Name", "NAME", "level", "Level"], n) if rng.random() < 0.3 else None
             for i in range(n):
-                out.append(Tok(rng.choice(MEMBERS) + str(i)))
+                out.append(Tok(keys[i] if keys else rng.choice(MEMBERS) + str(i)))
                 if rng.random() < 0.7:
                     out += [Tok("=")] + gen_simple_value(rng)
                 if i + 1 < n or rng.random() < 0.3:
